@@ -392,7 +392,11 @@ class IMAPConnection:
                     resp = ResponseNo(cmd.tag, b'Operation timed out.',
                                       ResponseCode.of(b'TIMEOUT'))
                     await self.write_response(resp)
-                except (CancelledError, ConnectionError, EOFError):
+                except (ConnectionError, EOFError):
+                    # the client went away in the middle of IDLE or of an
+                    # authentication exchange, which is not a server error
+                    break
+                except CancelledError:
                     await self.send_error_disconnect()
                     break
                 except Exception:
